@@ -1,5 +1,6 @@
 //! Request generators, one per property.  Everything random derives from `seed`.
 
+use crate::colfmt::*;
 use crate::expr::*;
 use crate::util::*;
 use std::fs;
@@ -37,6 +38,7 @@ pub fn generate(prop: &str, tier: &str, seed: u64, outdir: &str) {
         "C13" => gen_c13(&mut out, &mut rng, thorough),
         "C19" => gen_c19(&mut out, &mut rng, thorough),
         "C14" => gen_c14(&mut out, &mut rng, thorough),
+        "C07" => gen_c07(&mut out, &mut rng, thorough),
         _ => {
             eprintln!("no generator for {prop}");
             std::process::exit(2);
@@ -499,5 +501,186 @@ fn gen_c14(out: &mut Out, rng: &mut Rng, thorough: bool) {
         let len = rng.below(12) as usize;
         let bs: Vec<u8> = (0..len).map(|_| rng.below(256) as u8).collect();
         out.req("ascii_decode", format!("cp_decode UsAscii {}", hex_of_bytes(&bs)));
+    }
+}
+
+// ------------------------------------------------------------------------------------
+// C07
+
+/// all strings over `alpha` up to `maxlen`
+pub fn all_strings(alpha: &[char], maxlen: usize, f: &mut dyn FnMut(&str)) {
+    let mut cur: Vec<usize> = vec![];
+    loop {
+        let s: String = cur.iter().map(|&i| alpha[i]).collect();
+        f(&s);
+        let mut i = cur.len();
+        loop {
+            if i == 0 {
+                cur = vec![0; cur.len() + 1];
+                break;
+            }
+            i -= 1;
+            if cur[i] + 1 < alpha.len() {
+                cur[i] += 1;
+                for j in i + 1..cur.len() {
+                    cur[j] = 0;
+                }
+                break;
+            }
+        }
+        if cur.len() > maxlen {
+            break;
+        }
+    }
+}
+
+fn gen_c07(out: &mut Out, rng: &mut Rng, thorough: bool) {
+    let l = if thorough { 6 } else { 5 };
+    let specs: &[(&str, &str)] = &[
+        ("Integer", "+-0139 "), ("DoubleInteger", "+-0129 "), ("Identifier", "Az_.9%#\u{e9}"),
+        ("Property", "Az_.9%\u{e9}"), ("Version", "0965.,+-"), ("Language", "0965.,+-"),
+        ("Cabinet", "a.\u{e9}#_9"), ("UpperCase", "aZ\u{e9}1"), ("LowerCase", "aZ\u{e9}1"),
+        ("Guid", "{}A-a0"), ("Text", "a\u{e9}"),
+    ];
+    for (cat, alpha) in specs {
+        let a: Vec<char> = alpha.chars().collect();
+        let ml = if a.len() > 7 && !thorough { l - 1 } else { l };
+        all_strings(&a, ml, &mut |s| {
+            out.req("validate_exhaustive", format!("validate {cat} {}", hex_of_str(s)));
+        });
+        out.exhaustive.push(format!("all strings of length <= {ml} over {alpha:?} for {cat}"));
+    }
+    // boundary numerals
+    let nums = [
+        "32767", "32768", "-32768", "-32769", "+32767", "2147483647", "2147483648", "-2147483648",
+        "-2147483649", "65535", "65536", "065535", "0000065536", "99999999999999999999", "-0", "+0", "00", "-", "+",
+    ];
+    for n in nums {
+        for cat in ["Integer", "DoubleInteger", "Version", "Language"] {
+            out.req("numeral_boundary", format!("validate {cat} {}", hex_of_str(n)));
+            out.req("numeral_boundary", format!("validate {cat} {}", hex_of_str(&format!("1.{n}"))));
+            out.req("numeral_boundary", format!("validate {cat} {}", hex_of_str(&format!("1,{n}"))));
+        }
+    }
+    for v in ["1", "1.2", "1.2.3", "1.2.3.4", "1.2.3.4.5", "1..2", ".1", "1.", "65535.65535.65535.65535", "1,2,3", "1,,3", "1,2,", ""] {
+        out.req("version_shapes", format!("validate Version {}", hex_of_str(v)));
+        out.req("version_shapes", format!("validate Language {}", hex_of_str(v)));
+    }
+    // GUID shapes
+    let good = "{34AB5C53-9B30-4E14-AEF0-2C1C7BA826C0}";
+    let mut guids: Vec<String> = vec![
+        good.to_string(), good.to_lowercase(), good[1..37].to_string(), good.replace('-', ""),
+        "{HELLOWO-RLDH-ELLO-WORL-DHELLOWORLD0}".into(), good.replace("9B30-", "9B3-0"),
+        format!("{{\u{e9}{}", &good[3..]), format!("{}\u{e9}}}", &good[..35]),
+        format!("{{{}}}", "A".repeat(36)), format!("{{{}}}", "-".repeat(36)),
+        format!("[{}]", &good[1..37]), format!("{} ", &good[..37]),
+        "{34AB5C53-9B30-4E14-AEF0-2C1C7BA826C0}}".into(), "{34AB5C539B304E14AEF02C1C7BA826C0-----}".into(),
+        "{34AB5C53-9B30-4E14-AEF02C1C-7BA826C0}".into(), "{34AB5C5G-9B30-4E14-AEF0-2C1C7BA826C0}".into(),
+        "{+4AB5C53-9B30-4E14-AEF0-2C1C7BA826C0}".into(),
+    ];
+    for _ in 0..(if thorough { 3000 } else { 300 }) {
+        // mutate one position of a valid GUID
+        let mut cs: Vec<char> = good.chars().collect();
+        let i = rng.below(38) as usize;
+        cs[i] = *rng.pick(&['-', '{', '}', 'G', 'a', 'f', '0', 'F', ' ', '\u{e9}', '+']);
+        guids.push(cs.into_iter().collect());
+    }
+    for g in &guids {
+        out.req("guid_shapes", format!("validate Guid {}", hex_of_str(g)));
+    }
+    // cabinet by structure
+    for b in 0..=10usize {
+        for e in 0..=5usize {
+            for ch in ['a', '\u{e9}'] {
+                let base: String = std::iter::repeat(ch).take(b).collect();
+                let ext: String = std::iter::repeat(ch).take(e).collect();
+                out.req("cabinet_shapes", format!("validate Cabinet {}", hex_of_str(&format!("{base}.{ext}"))));
+                out.req("cabinet_shapes", format!("validate Cabinet {}", hex_of_str(&base)));
+                out.req("cabinet_shapes", format!("validate Cabinet {}", hex_of_str(&format!("{base}.x.{ext}"))));
+            }
+        }
+    }
+    // values built by the library itself
+    for _ in 0..(if thorough { 20_000 } else { 2_000 }) {
+        let hex: String = (0..32).map(|_| format!("{:x}", rng.below(16))).collect();
+        out.req("guid_value", format!("guid_value {hex}"));
+    }
+    for hex in ["00000000000000000000000000000000", "ffffffffffffffffffffffffffffffff", "abcdefabcdefabcdefabcdefabcdefab"] {
+        out.req("guid_value", format!("guid_value {hex}"));
+    }
+    for code in 0..=65535u32 {
+        if thorough || code % 7 == 0 || code < 1100 || code > 65000 {
+            out.req("langs_value", format!("langs_value {code}"));
+        }
+    }
+    for _ in 0..(if thorough { 20_000 } else { 2_000 }) {
+        let k = 1 + rng.below(5);
+        let codes: Vec<String> = (0..k).map(|_| rng.below(65536).to_string()).collect();
+        out.req("langs_value", format!("langs_value {}", codes.join(",")));
+    }
+    // is_valid_value: integers around every boundary x column kinds
+    let mut cols: Vec<ColDef> = vec![];
+    for ct in [CT::I16, CT::I32, CT::Str(0), CT::Str(3)] {
+        for nullable in [false, true] {
+            let mut c = ColDef::new("C", ct.clone());
+            c.nullable = nullable;
+            cols.push(c.clone());
+            c.range = Some((-5, 5));
+            cols.push(c.clone());
+            c.range = Some((i32::MIN, i32::MAX));
+            cols.push(c.clone());
+            c.range = Some((5, -5));
+            cols.push(c.clone());
+            c.range = Some((32766, 40000));
+            cols.push(c);
+        }
+    }
+    let ints: Vec<i32> = {
+        let mut v = vec![];
+        for b in [0i64, -5, 5, -32768, 32767, 32766, 40000, i32::MIN as i64, i32::MAX as i64] {
+            for d in -2..=2 {
+                let x = b + d;
+                if x >= i32::MIN as i64 && x <= i32::MAX as i64 {
+                    v.push(x as i32);
+                }
+            }
+        }
+        v
+    };
+    for c in &cols {
+        for n in &ints {
+            out.req("is_valid_int", format!("is_valid {} {}", c.tok(), V::Int(*n).tok()));
+        }
+        out.req("is_valid_null", format!("is_valid {} N", c.tok()));
+        for s in ["", "a", "abc", "abcd", "\u{e9}\u{e9}\u{e9}", "\u{e9}\u{e9}\u{e9}\u{e9}"] {
+            out.req("is_valid_str", format!("is_valid {} {}", c.tok(), V::Str(s.into()).tok()));
+        }
+    }
+    out.exhaustive.push("integers within +-2 of every storage/range boundary x 40 column shapes".into());
+    // string columns: width x enum x category
+    for max in [0usize, 1, 2, 5] {
+        for enums in [vec![], vec!["a".to_string(), "bb".to_string()], vec!["".to_string()], vec!["a;b".to_string()]] {
+            for cat in [None, Some("Identifier"), Some("Integer"), Some("UpperCase"), Some("Version")] {
+                let mut c = ColDef::new("S", CT::Str(max));
+                c.enums = enums.clone();
+                c.cat = cat;
+                for nullable in [false, true] {
+                    c.nullable = nullable;
+                    for s in ["", "a", "bb", "A", "a;b", "12", "1.2", "abcdef", "\u{e9}", "_x", "+1"] {
+                        out.req("is_valid_strcol", format!("is_valid {} {}", c.tok(), V::Str(s.into()).tok()));
+                    }
+                    out.req("is_valid_strcol", format!("is_valid {} I1", c.tok()));
+                    out.req("is_valid_strcol", format!("is_valid {} N", c.tok()));
+                }
+            }
+        }
+    }
+    // random strings per category
+    let pool: Vec<char> = "Aaz_.9%#+-0165,{} \u{e9}\u{4e2d}".chars().collect();
+    for _ in 0..(if thorough { 400_000 } else { 40_000 }) {
+        let (cat, _) = *rng.pick(CATEGORIES);
+        let len = rng.below(12) as usize;
+        let s: String = (0..len).map(|_| *rng.pick(&pool)).collect();
+        out.req("validate_random", format!("validate {cat} {}", hex_of_str(&s)));
     }
 }
